@@ -49,6 +49,11 @@ type Plan struct {
 	CutPos  int    // per-mille of the message length
 	CutAt   string // permille | userstate | userstate-1 | userstate+1 | rows (structural boundaries of a plain message)
 	CutMode string // reset | eof | stall
+	// a held member came back on another build before the exchange: it was first learnt with VsnOld (incarnation 2) and
+	// re-announced itself with VsnNew (incarnation 3); the exchange is judged against what it speaks now
+	UpgradeWho string  `json:",omitempty"` // "" | m1 | m2
+	VsnOld     []uint8 `json:",omitempty"`
+	VsnNew     []uint8 `json:",omitempty"`
 }
 
 var namePool = []string{"m1", "m2", "new1", "new2", "new3", "n0", "veto1", "filt1", "m1"}
@@ -89,6 +94,11 @@ func genPlan(t *rapid.T) Plan {
 		p.Rows = append(p.Rows, r)
 	}
 	p.UserLen = rapid.SampledFrom([]int{0, 0, 7, 1000, 65536}).Draw(t, "userlen")
+	p.UpgradeWho = rapid.SampledFrom([]string{"", "", "m1", "m2"}).Draw(t, "upgrade")
+	if p.UpgradeWho != "" {
+		p.VsnOld = rapid.SampledFrom([][]uint8{{1, 5, 2, 0, 0, 0}, {1, 5, 2, 0, 0, 0}, {3, 5, 3, 0, 0, 0}, {1, 5, 2, 0, 1, 1}}).Draw(t, "vsnold")
+		p.VsnNew = rapid.SampledFrom([][]uint8{{3, 5, 3, 0, 0, 0}, {1, 3, 2, 0, 0, 0}, {1, 2, 2, 0, 0, 0}, {4, 5, 4, 0, 0, 0}, {1, 5, 2, 0, 1, 1}, {1, 5, 2, 1, 1, 1}, {1, 5, 5, 0, 0, 0}}).Draw(t, "vsnnew")
+	}
 	p.Fault = rapid.SampledFrom([]string{"none", "none", "cut", "cut", "cut", "wrongkey", "wronglabel", "plaintext", "overcap-nodes", "overcap-state"}).Draw(t, "fault")
 	p.CutPos = rapid.SampledFrom([]int{0, 1, 2, 10, 500, 900, 990, 998, 999, rapid.IntRange(0, 999).Draw(t, "cutany")}).Draw(t, "cutpos")
 	p.CutMode = rapid.SampledFrom([]string{"reset", "eof", "eof", "stall"}).Draw(t, "cutmode")
@@ -164,11 +174,23 @@ func run(pl Plan) (res vfx.Result) {
 	m1 := p.AddPeer("m1", "10.0.0.11", 7946, vsnOK)
 	m2 := p.AddPeer("m2", "10.0.0.12", 7946, vsnOK)
 	host := p.AddPeer("hostpeer", "10.0.0.20", 7946, vsnOK)
+	heldVsn := map[string][]uint8{"m1": vsnOK, "m2": vsnOK}
+	firstVsn := map[string][]uint8{"m1": vsnOK, "m2": vsnOK}
+	firstInc := map[string]uint32{"m1": 3, "m2": 3}
+	if pl.UpgradeWho != "" {
+		heldVsn[pl.UpgradeWho], firstVsn[pl.UpgradeWho], firstInc[pl.UpgradeWho] = pl.VsnNew, pl.VsnOld, 2
+	}
 	p.Inject(m1.Addr(), [][]byte{
-		puppet.Claim{Kind: "alive", Node: "m1", Inc: 3, Addr: m1.IPBytes(), Port: 7946, Meta: []byte("m1"), Vsn: vsnOK}.Leaf(),
-		puppet.Claim{Kind: "alive", Node: "m2", Inc: 3, Addr: m2.IPBytes(), Port: 7946, Meta: []byte("m2"), Vsn: vsnOK}.Leaf(),
+		puppet.Claim{Kind: "alive", Node: "m1", Inc: firstInc["m1"], Addr: m1.IPBytes(), Port: 7946, Meta: []byte("m1"), Vsn: firstVsn["m1"]}.Leaf(),
+		puppet.Claim{Kind: "alive", Node: "m2", Inc: firstInc["m2"], Addr: m2.IPBytes(), Port: 7946, Meta: []byte("m2"), Vsn: firstVsn["m2"]}.Leaf(),
 	}, puppet.Carrier{Kind: "compound"})
 	time.Sleep(500 * time.Millisecond)
+	if w := pl.UpgradeWho; w != "" {
+		labels["upgraded-member"] = true
+		pe := p.Peers[w]
+		p.Inject(pe.Addr(), [][]byte{puppet.Claim{Kind: "alive", Node: w, Inc: 3, Addr: pe.IPBytes(), Port: 7946, Meta: []byte(w), Vsn: pl.VsnNew}.Leaf()}, puppet.Carrier{})
+		time.Sleep(500 * time.Millisecond)
+	}
 	p.Settle()
 	// ---- build the remote state list ----
 	var rows []wire.PushNodeState
@@ -247,7 +269,7 @@ func run(pl Plan) (res vfx.Result) {
 			name string
 			v    []uint8
 		}
-		alive := []vv{{"n0", conf.Vsn()}, {"m1", vsnOK}, {"m2", vsnOK}}
+		alive := []vv{{"n0", conf.Vsn()}, {"m1", heldVsn["m1"]}, {"m2", heldVsn["m2"]}}
 		for _, r := range rows {
 			if r.State == wire.StateAlive && len(r.Vsn) >= 6 {
 				alive = append(alive, vv{r.Name, r.Vsn})
